@@ -1,5 +1,6 @@
 import MobiusModel.Session
 import MobiusModel.Generated.Consts
+import MobiusModel.Generated.Concurrency
 /-!
   C17 — Disconnects and bans are enforced at the door.
 
@@ -94,6 +95,25 @@ theorem newest_ban_decides (c : Codec) (pre post : List Op) (a : Bytes) (e : Ent
   simp only [specStore]
   rw [specStore_lookup_of_no_add _ post a hpost, lookup_add_same]
 
+/-- (9'') Every ban that is the newest for its address is still there after a restart at the end of
+    the history — whatever other bans (of other addresses, in any order: concurrent requests are
+    atomic `Add`s, i.e. some sequential order) and restarts surround it. -/
+theorem every_ban_survives_restart (c : Codec) (pre post : List Op) (a : Bytes) (e : Entry)
+    (hpost : ∀ e', Op.add a e' ∉ post) :
+    ∃ s', BanGate.run c Sys.init (pre ++ Op.add a e :: (post ++ [Op.reload])) = some s' ∧ s'.mem.lookup a = some e := by
+  apply newest_ban_decides
+  intro e' hm
+  rcases List.mem_append.mp hm with h | h
+  · exact hpost e' h
+  · simp at h
+
+/-- (5/6 bis) The handler's ban OVERWRITES whatever entry the address already has — an expired
+    temporary ban, a running one, a permanent one: the newest request decides. -/
+theorem disconnect_overwrites_existing_entry (s : Store) (ip : Bytes) (t0 : Nat) :
+    (disconnectBan s (some 1) t0 ip).lookup ip = some (some (t0 + banDuration)) ∧
+    (disconnectBan s (some 2) t0 ip).lookup ip = some none := by
+  simp [disconnectBan, lookup_add_same]
+
 /-- (10) Refusal happens right after the handshake and before any login is processed: for a
     refused address the result is the handshake reply plus one ban notice, whatever bytes follow
     the 12-byte handshake — no token is read, nothing is dispatched, the world is unchanged. -/
@@ -131,6 +151,12 @@ theorem notice_kind (s : Store) (a : Bytes) : permanent s a = true ↔ s.lookup 
 /-! Obligation over the constants regenerated from /repo's source on every run. -/
 
 theorem generated_banDuration : Generated.miscConsts.lookup "BanDurationMinutes" = some banDurationMinutes := by decide
+
+/-- `BanFile.Add` takes the lock and releases it by a deferred unlock: the map update and the
+    write of the file are one critical section (what makes concurrent `Add`s atomic steps). -/
+theorem generated_banfile_add_atomic :
+    ("mobius.BanFile.Add", "bf.Lock()", true, false) ∈ Generated.lockSites ∧
+    ∀ s ∈ Generated.lockSites, s.1 = "mobius.BanFile.Add" → s.2.2.1 = true := by decide
 
 -- non-vacuity: concrete instances
 example : (Store.empty.add [49, 46, 50] none).lookup [49, 46, 50] = some none := by decide
